@@ -22,12 +22,26 @@ Print Assumptions C03_diamond_multiplies.
    in common, none an input of another) or are exactly a state and a node that only hands that state on, the
    model's outputs are the nested-loop outputs.  The excluded class is computable: share_class wf = false
    (finding F03). *)
-Theorem C03_partial : forall wf : workflow, c03_aligned wf = true -> model_run wf = Some (spec_run wf).
+Theorem C03_partial : forall wf : workflow,
+  c03_aligned wf = true -> zip_len_ok wf = true -> model_run wf = Some (spec_run wf).
 Proof. exact aligned. Qed.
 Print Assumptions C03_partial.
 
+(* second pass: own inner (zip) splitters mixed with outer ones, combiners named by any field of a zip group,
+   both outputs of every node (each input chooses which one it consumes), nested-workflow nodes (opaque).
+   model_run2 / spec_run2 are what the harness observes: both outputs of every node; spec_run2 is None exactly when
+   two zipped fields differ in length (rejection).  The class: c03_aligned after combiner names are replaced by their
+   group leaders, equal zip shapes, no node with a combiner keeps a zip group open (F03z = inherited F02), combiners
+   name whole zip groups (F03y). *)
+Theorem C03_partial2 : forall wf : workflow, c03_class2 wf = true -> model_run2 wf = spec_run2 wf.
+Proof. exact partial2. Qed.
+Print Assumptions C03_partial2.
+Example C03_partial2_zip_example : c03_class2 zip_example = true /\ spec_njobs (normalize zip_example) = [6; 6; 6].
+Proof. split; [exact zip_example_in_class | exact zip_example_njobs]. Qed.
+
 (* separate origins only *)
-Theorem C03_separate_origins : forall wf : workflow, c03_domain wf = true -> model_run wf = Some (spec_run wf).
+Theorem C03_separate_origins : forall wf : workflow,
+  c03_domain wf = true -> zip_len_ok wf = true -> model_run wf = Some (spec_run wf).
 Proof. exact partial. Qed.
 Print Assumptions C03_separate_origins.
 
@@ -51,7 +65,7 @@ Proof. exact fanin_example_in_class. Qed.
 (* chains, fan-out, trees of pipelines: every node takes all its upstream inputs from one node (possibly
    through several fields, with own splitters and combiners) — any length, any list sizes *)
 Theorem C03_chain : forall wf : workflow,
-  wf_ok wf = true -> forallb single_input wf = true -> model_run wf = Some (spec_run wf).
+  wf_ok wf = true -> zip_len_ok wf = true -> forallb single_input wf = true -> model_run wf = Some (spec_run wf).
 Proof. exact chain_class. Qed.
 Print Assumptions C03_chain.
 
@@ -61,7 +75,7 @@ Proof. exact chain_example_in_class. Qed.
 (* fan-in of independent origins: the inputs of every node have pairwise no common ancestor
    (a graph condition: the provenance of every node is a forest) *)
 Theorem C03_fanin_independent : forall wf : workflow,
-  wf_ok wf = true -> independent_inputs wf = true -> model_run wf = Some (spec_run wf).
+  wf_ok wf = true -> zip_len_ok wf = true -> independent_inputs wf = true -> model_run wf = Some (spec_run wf).
 Proof. exact fanin_class. Qed.
 Print Assumptions C03_fanin_independent.
 
